@@ -25,6 +25,13 @@ UntypedVals == {
    Obj(<<"n", "u1">>, <<N(4), N(8)>>), Obj(<<"n", "u1">>, <<N(4), St(<<"x">>)>>),
    Obj(<<"n", "u3">>, <<N(4), St(<<"a">>)>>), Obj(<<"n", "u3">>, <<N(4), St(<<"z">>)>>) }
 TextVals == {St(<<"a">>), St(<<"a", "b", "c">>)}
+(* bodies for S4 / S4a (every field text has exactly one reading that can satisfy an alternative, or none) *)
+AltVals == { Obj(<<"by", "ref">>, <<St(<<"n", "a", "m", "e">>), St(<<"a", "b">>)>>),      \* satisfies the string alternative only
+             Obj(<<"by", "ref">>, <<St(<<"i", "d">>), N(28)>>),                          \* satisfies the integer alternative
+             Obj(<<"by", "ref">>, <<St(<<"i", "d">>), St(<<"a", "b">>)>>),                \* satisfies none
+             Obj(<<"by">>, <<St(<<"i", "d">>)>>) }                                       \* ref missing
+(* bodies for S5 / S6: an EMPTY string is a value, not an absent property *)
+EmptyVals == { Obj(<<"n", "s">>, <<N(4), St(<<>>)>>), Obj(<<"n", "s">>, <<N(4), St(<<"a">>)>>), Obj(<<"n">>, <<N(4)>>) }
 
 VARIABLE case
 Init ==
@@ -46,11 +53,18 @@ Init ==
         /\ (dflt => (sc = "S3" /\ cl = "known"))          \* dflt: defaults are installed during validation (SkipSettingDefaults off)
         /\ (sc = "S3" => enc = "default")
         /\ case = [part |-> "decode", family |-> fam, schema |-> sc, v |-> v, excludeRO |-> xro, enc |-> enc, clen |-> cl, setDefaults |-> dflt]
+   \/ \E fam \in {"json", "form", "multipart"}, sc \in {"S4", "S4a"}, v \in AltVals :
+        /\ (fam = "multipart" => ~HasNum(v))           \* multipart text parts are not typed (F-C06-2)
+        /\ case = [part |-> "decode", family |-> fam, schema |-> sc, v |-> v, excludeRO |-> FALSE, enc |-> "default", clen |-> "known", setDefaults |-> FALSE]
+   \/ \E fam \in {"json", "form", "multipart"}, sc \in {"S5", "S6"}, v \in EmptyVals :
+        /\ (fam = "form" => ~\E i \in DOMAIN v.v : v.v[i] = St(<<>>))   \* "s=" in a urlencoded body: the open region "empty values" (as for parameters)
+        /\ case = [part |-> "decode", family |-> fam, schema |-> sc, v |-> v, excludeRO |-> TRUE, enc |-> "default", clen |-> "known", setDefaults |-> FALSE]
    \/ \E v \in TextVals :
         case = [part |-> "decode", family |-> "text", schema |-> "text", v |-> v, excludeRO |-> FALSE, enc |-> "default", clen |-> "known", setDefaults |-> FALSE]
 Next == UNCHANGED case
 Spec == Init /\ [][Next]_case
-Emit == CSVWrite("%1$s", <<ToJson(case)>>, "cases.ndjson")
+(* the decode cases carry the abstract schema: the realiser builds the document from it *)
+Emit == CSVWrite("%1$s", <<ToJson(IF case.part = "decode" THEN case @@ [sch |-> SchemaOf(case)] ELSE case)>>, "cases.ndjson")
 
 (* D: selection is a function with the documented precedence *)
 SelectLaws ==
